@@ -200,6 +200,9 @@ func (x *inst) applyMgmt(ev string, f []string) {
 	case "SnapDup":
 		name := m.Chain[len(m.Chain)-1].Name
 		x.mustRefuse(ev, func() error { return x.api().Snapshot(name, true, created) }, true)
+	case "SnapDupO":
+		// the name of a snapshot that an earlier revert left outside the chain: its files are still in the directory
+		x.mustRefuse(ev, func() error { return x.api().Snapshot(f[1], true, created) }, true)
 	case "SnapDupOld":
 		name := m.Chain[0].Name
 		x.mustRefuse(ev, func() error { return x.api().Snapshot(name, false, created) }, true)
